@@ -339,7 +339,13 @@ func checkRecovered(c cfg, dir string, pre, post model, op string, evictable map
 		if a.present && a.complete && isTarget && !g.listed && f[0] != "delete" && f[0] != "create" {
 			return "completed blob lost after crash in " + opKind(op), fmt.Sprintf("key %s vanished though the in-flight op %q does not delete", k, op)
 		}
-		// clause: incomplete blobs restored with reserved size or dropped as configured
+		// clause: incomplete blobs restored with reserved size or dropped as configured:
+		// with reboot of incomplete blobs ON, an incomplete blob whose Create had
+		// returned must still be there (incomplete, or complete when the in-flight
+		// operation is its own MarkComplete) unless the in-flight operation deletes it.
+		if c.reboot && a.present && !a.complete && !g.listed && !(k == target && f[0] == "delete") {
+			return "incomplete blob dropped although reboot of incomplete blobs is on (crash in " + opKind(op) + ")", fmt.Sprintf("key %s created before the crash is gone after reopen", k)
+		}
 		if g.listed && !g.complete {
 			if !c.reboot {
 				return "incomplete blob kept although reboot of incomplete blobs is off", fmt.Sprintf("key %s after crash in %s", k, op)
